@@ -41,6 +41,8 @@ def sig_of(cls, kw, clause, region="all"):
   s = dict(cls=cls, clause=clause, region=region)
   if cls == "quantized_linear" and kw.get("bits") == 1 and kw.get("keep_negative", True):
     s["sign_mode"] = True
+  if cls == "quantized_relu" and kw.get("use_sigmoid") and kw.get("negative_slope"):
+    s["leaky_sigmoid"] = True
   a = kw.get("alpha")
   s["alpha_kind"] = "none" if a in (None, 1, 1.0) else ("const_ne_1" if not isinstance(a, str) else a)
   return s
@@ -72,9 +74,9 @@ def one_config(run, cls, kw, rng, idx, elementwise=False):
   meta = dict(cls=cls, kw=kw, clause="code", step=str(fmt["step"]), lo=fmt["lo"], hi=fmt["hi"])
   dom = domain(x, fmt)
   tr.b.close_stubs()
-  if cls == "quantized_linear" and fmt.get("only"):
-    # sign mode: x + 1.0*(xq - x) is only exact where Sterbenz' lemma applies; the band around zero is a
-    # separate region so that a recorded finding there does not hide anything elsewhere
+  if (cls == "quantized_linear" and fmt.get("only")) or (cls == "quantized_relu" and kw.get("use_sigmoid") and kw.get("negative_slope")):
+    # sign mode (and the leaky sigmoid ReLU, which maps 0+ to a negative code): x + (xq - x) is only exact where Sterbenz'
+    # lemma applies; the band around zero is a separate region so that a recorded finding there does not hide anything elsewhere
     half = ir.fp_lit(float(fmt["step"]) / 2)
     run.add("%03d_code_away" % idx, ir.build_smt(tr.b, dom + [ir.L("(fp.geq (fp.abs {0}) %s)" % half, x), code_violation(o, fmt)]),
             meta=dict(meta, region="away_from_zero"))
